@@ -22,6 +22,7 @@ fn exec_for(prop: &str) -> Exec {
         "C20" => props::dict::exec,
         "C19" => props::bpetrain::exec,
         "C17" => props::groups::exec,
+        "C08" => props::loader::exec,
         "C05" | "C09" => props::pipe::exec,
         "C01" | "C02" | "C03" | "C04" => props::tok::exec,
         _ => panic!("unknown property {prop}"),
@@ -56,6 +57,7 @@ fn main() {
                 "C20" => props::dict::run_c20(&mut c),
                 "C19" => props::bpetrain::run_c19(&mut c),
                 "C17" => props::groups::run_c17(&mut c),
+                "C08" => props::loader::run_c08(&mut c),
                 "C05" => props::pipe::run_c05(&mut c),
                 "C09" => props::pipe::run_c09(&mut c),
                 "C01" => props::tok::run_c01(&mut c),
